@@ -1,8 +1,9 @@
 (* C12 — LCS, LIS and LNDS return optimal subsequences.
    Only statements, each closed by [exact] of a lemma proved elsewhere. *)
-From Coq Require Import ZArith List Bool.
+From Coq Require Import ZArith List Bool Lia.
 Import ListNotations.
 From Mds Require Import Slice.Subseq Slice.LcsModel Slice.LcsProofs.
+From Mds Require Import Slice.LisModel Slice.LisSpec Slice.LisProofs.
 
 (* LCSFunc under any equivalence: a result is always returned (no panic, fuel suffices); it is a
    common subsequence (up to eqb) of both arguments; no common subsequence is longer. *)
@@ -49,3 +50,55 @@ Example C12_lcs_exact_side_witness :
   lcs_func Z eqb [11; 22; 13]%Z [21; 31; 42; 52]%Z = Some [11; 22]%Z
   /\ lcs_swap Z [11; 22; 13]%Z [21; 31; 42; 52]%Z = ([11; 22; 13], [21; 31; 42; 52])%Z.
 Proof. vm_compute. split; reflexivity. Qed.
+
+(* ---------------- LNDS / LIS ---------------- *)
+
+(* [ordered_b T cmp strict s]: every element of s is followed by one that compares greater
+   (strict = true: cmp u v < 0) resp. not smaller (strict = false: cmp u v <= 0).
+   Assumed of cmp: a three-way comparison of a total preorder -- swapping the arguments flips
+   the sign of the result, and "<= 0" is transitive.  Any magnitudes are allowed. *)
+
+(* LNDSFunc: a result is always returned (no panic, fuel suffices); it is a subsequence of the
+   input, non-decreasing, and no non-decreasing subsequence of the input is longer. *)
+Theorem C12_lnds_optimal :
+  forall (T : Type) (cmp : T -> T -> Z),
+    (forall a b, Z.sgn (cmp b a) = - Z.sgn (cmp a b))%Z ->
+    (forall a b c, cmp a b <= 0 -> cmp b c <= 0 -> cmp a c <= 0)%Z ->
+    forall vs : list T, exists s,
+      lnds_func T cmp vs = Some s /\ Subseq s vs /\ ordered_b T cmp false s = true /\
+      forall t, Subseq t vs -> ordered_b T cmp false t = true -> (length t <= length s)%nat.
+Proof. exact lnds_func_optimal. Qed.
+Print Assumptions C12_lnds_optimal.
+
+Example C12_lnds_optimal_witness :
+  lnds_func Z Z.sub [3; 1; 2; 2; 5; 4; 4; 1; 6]%Z = Some [1; 2; 2; 4; 4; 6]%Z
+  /\ (forall a b, Z.sgn (b - a) = - Z.sgn (a - b))%Z
+  /\ (forall a b c, a - b <= 0 -> b - c <= 0 -> a - c <= 0)%Z.
+Proof.
+  split; [vm_compute; reflexivity|]. split; intros.
+  - rewrite <- Z.sgn_opp. f_equal. lia.
+  - lia.
+Qed.
+
+(* LISFunc: the same with strictly increasing. *)
+Theorem C12_lis_optimal :
+  forall (T : Type) (cmp : T -> T -> Z),
+    (forall a b, Z.sgn (cmp b a) = - Z.sgn (cmp a b))%Z ->
+    (forall a b c, cmp a b <= 0 -> cmp b c <= 0 -> cmp a c <= 0)%Z ->
+    forall vs : list T, exists s,
+      lis_func T cmp vs = Some s /\ Subseq s vs /\ ordered_b T cmp true s = true /\
+      forall t, Subseq t vs -> ordered_b T cmp true t = true -> (length t <= length s)%nat.
+Proof. exact lis_func_optimal. Qed.
+Print Assumptions C12_lis_optimal.
+
+Example C12_lis_optimal_witness :
+  (* reversed comparison: the longest strictly DEcreasing subsequence *)
+  let cmp := fun a b : Z => (b - a)%Z in
+  lis_func Z cmp [3; 1; 2; 2; 5; 4; 4; 1; 6]%Z = Some [5; 4; 1]%Z
+  /\ (forall a b, Z.sgn (cmp b a) = - Z.sgn (cmp a b))%Z
+  /\ (forall a b c, cmp a b <= 0 -> cmp b c <= 0 -> cmp a c <= 0)%Z.
+Proof.
+  cbv zeta. split; [vm_compute; reflexivity|]. split; intros.
+  - rewrite <- Z.sgn_opp. f_equal. lia.
+  - lia.
+Qed.
